@@ -44,7 +44,7 @@ func SpyMarker(bar int, cur, tot int64, completed, aborted bool) string {
 
 func (d *spyDec) Decor(s decor.Statistics) (string, int) {
 	simrt.Log(simrt.Entry{Kind: EvSpy, ID: d.bar, A: s.Current, B: s.Total, V: SpyRec{Bar: d.bar, ID: s.ID, Current: s.Current, Total: s.Total,
-		Refill: s.Refill, Completed: s.Completed, Aborted: s.Aborted, Avail: s.AvailableWidth, ReqWidth: s.RequestedWidth}})
+		Refill: s.Refill, Completed: s.Completed, Aborted: s.Aborted, Avail: s.AvailableWidth, ReqWidth: s.RequestedWidth, T: simrt.PeekNS()}})
 	return d.Format(SpyMarker(d.bar, s.Current, s.Total, s.Completed, s.Aborted))
 }
 
@@ -112,7 +112,7 @@ type recAverage struct {
 }
 
 func (a *recAverage) Add(v float64) {
-	simrt.Log(simrt.Entry{Kind: "avg.add", ID: a.bar, A: int64(a.side), B: int64(a.ord), V: v})
+	simrt.Log(simrt.Entry{Kind: EvAvgAdd, ID: a.bar, A: int64(a.side), B: int64(a.ord), V: v})
 	a.val = v
 }
 func (a *recAverage) Value() float64 { return a.val }
@@ -145,6 +145,9 @@ func sizeUnit(style int) interface{} {
 func buildDecorator(spec DecSpec, bar, side, ord int) decor.Decorator {
 	wc := decor.WC{W: spec.W, C: spec.C}
 	var d decor.Decorator
+	if spec.Kind != DecProbe {
+		simrt.Log(simrt.Entry{Kind: EvDecNew, ID: bar, A: int64(side), B: int64(ord), V: simrt.PeekNS()})
+	}
 	switch spec.Kind {
 	case DecProbe:
 		pd := &probeDec{bar: bar, side: side, ord: ord, spec: spec}
@@ -198,8 +201,15 @@ func buildDecorator(spec DecSpec, bar, side, ord int) decor.Decorator {
 			d = decor.OnAbortMeta(d, metaFn)
 		}
 	}
+	if spec.Mark {
+		tag := MarkTag(bar, side, ord)
+		d = decor.Meta(d, func(s string) string { return "{" + tag + "=" + s + "}" })
+	}
 	return d
 }
+
+// MarkTag is the tag of a marked decorator's field.
+func MarkTag(bar, side, ord int) string { return fmt.Sprintf("%c%d.%d", "pa"[side], bar, ord) }
 
 // ---------------------------------------------------------------------------
 // fault plan
